@@ -5,7 +5,7 @@ from mc import core, det, xstate
 PROPERTY = 'C20'
 ENGINE = 'E2 explicit-state BFS to fixpoint over the real persistent dictionaries (canonical state = ordered items + closed flag) + all histories up to depth k without dedup'
 LEVEL = 'model_checking'
-DIRECTED_ADDITIONS = 'from_dict independence, memoryview in the refused family, one scripted scale history per class (KiB values, hundreds of keys, six reopen / sync points)'      # members added during the seeded-change campaign (DESIGN 7); counted under their own vacuity counters
+DIRECTED_ADDITIONS = 'PickledDict under a relative path with the working directory elsewhere between open and sync/close, from_dict independence, memoryview in the refused family, one scripted scale history per class (KiB values, hundreds of keys, six reopen / sync points)'      # members added during the seeded-change campaign (DESIGN 7); counted under their own vacuity counters
 
 
 KEYS = [b'k1', b'k2', b'\x00', b'']
@@ -48,6 +48,9 @@ def units(tier, seed):
         us.append(('dfs/%s' % cls, {'kind': 'dfs', 'cls': cls}))
         us.append(('fromdict/%s' % cls, {'kind': 'fromdict', 'cls': cls}))
         us.append(('scale/%s' % cls, {'kind': 'scale', 'cls': cls}))
+    # the dictionary named by a RELATIVE path, the process' working directory somewhere else whenever it is not opening or creating
+    us.append(('dfs-relative/PickledDict', {'kind': 'dfs', 'cls': 'PickledDict', 'relative': True}))
+    us.append(('bfs-relative/PickledDict', {'kind': 'bfs', 'cls': 'PickledDict', 'nk': 2, 'relative': True}))
     return us
 
 
@@ -56,13 +59,16 @@ class Sut:
 
 
 class DictSystem:
-    def __init__(self, clsname, nk=3, reduced=False):
+    def __init__(self, clsname, nk=3, reduced=False, relative=False):
         import data_persistence.persistent_dict as pd
+        self.relative = relative
         self.clsname = clsname
         self.cls = getattr(pd, clsname)
         self.pickled = clsname == 'PickledDict'
         self.keys = KEYS[:nk]
         self.home = det.workdir('c20')
+        self.away = os.path.join(self.home, 'away')
+        os.makedirs(self.away, exist_ok=True)
         self.counter = 0
         evs = []
         if reduced:
@@ -89,7 +95,12 @@ class DictSystem:
         s.dir = os.path.join(self.home, 'h%d' % self.counter)
         os.mkdir(s.dir)
         s.path = os.path.join(s.dir, 'd')
+        if self.relative:
+            s.path = 'd'
+            os.chdir(s.dir)
         s.d = self.cls.create(s.path)
+        if self.relative:
+            os.chdir(self.away)
         s.model = {}
         s.closed = False
         return s
@@ -210,6 +221,8 @@ class DictSystem:
     def post_check(self, s, ev):
         """complete read-back against the model (and, for PickledDict, once more after close+open); the object is disposed afterwards"""
         probs = []
+        if self.relative:
+            os.chdir(s.dir)
         if s.closed:
             if self.pickled:
                 try:
@@ -233,7 +246,11 @@ class DictSystem:
             if n != len(want) or any((k in s.d) is False for k in keys):
                 probs.append(('len-or-membership-differ-from-model-after', ev[0], (len(want), keys), n))
             if self.pickled:
+                if self.relative:
+                    os.chdir(self.away)
                 s.d.close()
+                if self.relative:
+                    os.chdir(s.dir)
                 again = self.cls.open(s.path)
                 try:
                     got2 = [(k, bytes(again[k])) for k in again]
@@ -255,6 +272,15 @@ class DictSystem:
         was_closed = s.closed
         before = [(k, bytes(v)) for k, v in (s.model.items() if self.pickled else sorted(s.model.items()))]
         exp = self.model_apply(s, ev)
+        if self.relative:
+            # names are resolved where the dictionary lives; everything else happens with the working directory elsewhere
+            if ev[0] == 'reopen':
+                os.chdir(self.away)
+                try:
+                    s.d.close()
+                except Exception:
+                    pass
+            os.chdir(s.dir if ev[0] in ('reopen', 'create-existing', 'open-missing') else self.away)
         try:
             got = ('ok', self.impl_apply(s, ev))
         except Exception as e:
@@ -285,6 +311,10 @@ class DictSystem:
         stray = set(os.listdir(s.dir)) - ({'d'} if self.pickled else {'d.dat', 'd.dir', 'd.bak', 'd', 'd.db'})
         if stray:
             probs.append(('stray-file', opname, 'only the dictionary\'s own files', sorted(stray)))
+        if self.relative and os.listdir(self.away):
+            probs.append(('stray-file', opname + '/other-working-directory', 'nothing written into the working directory of the moment', sorted(os.listdir(self.away))))
+            for fn in os.listdir(self.away):
+                os.unlink(os.path.join(self.away, fn))
         return probs
 
 
@@ -447,12 +477,13 @@ def run_unit(p, tier, seed):
         return r
 
     def on_problem(hist, ev, prob):
-        r.v(PROPERTY, clsname, prob[0], prob[1], {'cls': clsname, 'history': [list(e) for e in hist], 'event': list(ev), 'engine': p['kind']},
+        r.v(PROPERTY, clsname, prob[0], prob[1] + ('/relative-path' if p.get('relative') else ''),
+            dict({'cls': clsname, 'history': [list(e) for e in hist], 'event': list(ev), 'engine': p['kind']}, **({'relative': True} if p.get('relative') else {})),
             prob[2], prob[3])
         r.outcome(prob[0])
 
     if p['kind'] == 'bfs':
-        system = DictSystem(clsname, p['nk'])
+        system = DictSystem(clsname, p['nk'], relative=bool(p.get('relative')))
         st, seen = xstate.bfs(system, on_problem, max_states=50000)
         r['states'] += st.states
         r['transitions'] += st.transitions
@@ -470,7 +501,7 @@ def run_unit(p, tier, seed):
         r.sample({'cls': clsname, 'keys': system.keys, 'states': st.states, 'transitions': st.transitions, 'alphabet': len(system._alphabet),
                   'a_deepest_history': [list(e) for e in longest]})
     else:
-        system = DictSystem(clsname, 3, reduced=True)
+        system = DictSystem(clsname, 3, reduced=True, relative=bool(p.get('relative')))
         depth = 4 if tier == 'quick' else 5
         if clsname == 'DBMDict':
             depth -= 1
@@ -482,6 +513,7 @@ def run_unit(p, tier, seed):
         r.count('dfs-histories', st.histories)
         r.outcome('dfs-complete/%s/depth=%d' % (clsname, depth))
         r.sample({'cls': clsname, 'dfs_depth': depth, 'histories': st.histories, 'alphabet': [list(e) for e in system._alphabet]}, limit=1)
+    os.chdir(core.VERIF)
     shutil.rmtree(system.home, ignore_errors=True)
     return r
 
@@ -494,14 +526,15 @@ def replay(case, seed):
     if 'scale_checkpoint' in case:
         run_scale(r, seed, case['cls'])
         return r['violations']
-    system = DictSystem(case['cls'], 4)
+    system = DictSystem(case['cls'], 4, relative=bool(case.get('relative')))
     s = system.fresh()
     for ev in case['history']:
         system.step(s, tuple(ev))
     ev = tuple(case['event'])
-    for prob in system.step(s, ev):
-        r.v(PROPERTY, case['cls'], prob[0], prob[1], case, prob[2], prob[3])
+    for prob in system.step(s, ev) + (system.post_check(s, ev) if case.get('relative') else []):
+        r.v(PROPERTY, case['cls'], prob[0], prob[1] + ('/relative-path' if case.get('relative') else ''), case, prob[2], prob[3])
     system.dispose(s)
+    os.chdir(core.VERIF)
     shutil.rmtree(system.home, ignore_errors=True)
     return r['violations']
 
